@@ -28,13 +28,14 @@ def divLit (a d : I32) : I32 := a.sdiv d
 /-- `RichBoolean.toInt`: `if (b) 1 else 0` -/
 def boolToInt (b : Bool) : I32 := if b then 1#32 else 0#32
 
-/-- The one floating-point expression of `Genotype.allelePairSqrt`,
-`(Math.sqrt(8 * i.toDouble + 1) / 2 - 0.5).toInt`, read in exact arithmetic for `i ≥ 0`
-(for `i < 0` the argument of `sqrt` is negative, `sqrt` is NaN and `NaN.toInt = 0`).
-Agreement of the IEEE-754 double computation with the exact value below `2^29` is an assumption
-(the Python twin of this expression is compared against the exact value on every boundary). -/
-def triRootF (i : I32) : I32 :=
-  if i.slt 0#32 then 0#32 else BitVec.ofNat 32 ((Nat.sqrt (8 * i.toNat + 1) - 1) / 2)
+/-- The floating-point step of `Genotype.allelePairSqrt`, `(Math.sqrt(r) / 2 - 0.5).toInt`, read in exact arithmetic.
+`r` is the radicand as the translator computes it: `Int` sub-expressions are evaluated in wrapping 32-bit arithmetic and
+widened to `Double` exactly where the Scala static types put the widening; the `Double` part (integer-valued operands far
+below `2^53`) is exact and carried as a Lean `Int`. A negative radicand gives `sqrt = NaN` and `NaN.toInt = 0`.
+Agreement of the IEEE-754 `sqrt` / division / truncation with the exact value for `r < 2^32` is an assumption (the Python
+twin of this expression is compared against the exact value on every boundary). -/
+def triRootR (r : Int) : I32 :=
+  if r < 0 then 0#32 else BitVec.ofNat 32 ((Nat.sqrt r.toNat - 1) / 2)
 
 /-- `arr(i)`: `ArrayIndexOutOfBoundsException` outside `[0, length)` -/
 def index (arr : List I32) (i : I32) : Option I32 := if i.slt 0#32 then none else arr[i.toNat]?
